@@ -290,6 +290,8 @@ def mst(X):
     -------
     the corresponding WeightedGraph instance
     """
+    # squares of (narrow or unsigned) integer coordinates must not wrap around
+    X = np.asarray(X, dtype=np.float64)
     n = X.shape[0]
     label = np.arange(n).astype(np.intp)
 
@@ -458,6 +460,9 @@ def graph_3d_grid(xyz, k=18):
     """
     if np.size(xyz) == 0:
         return None
+    if np.asarray(xyz).dtype.kind == 'u':
+        # the positional codes below need signed arithmetic (1 - m wraps around)
+        xyz = np.asarray(xyz, dtype=np.intp)
     lxyz = xyz - xyz.min(0)
     m = 3 * lxyz.max(0).sum() + 2
 
@@ -550,7 +555,8 @@ def concatenate_graphs(G1, G2):
     G1.V+G2.V]
     """
     V = G1.V + G2.V
-    edges = np.vstack((G1.edges, G1.V + G2.edges))
+    # G1.V + G2.edges must not wrap when the edge arrays have a narrow integer type
+    edges = np.vstack((G1.edges, G1.V + np.asarray(G2.edges, dtype=np.intp)))
     weights = np.hstack((G1.weights, G2.weights))
     G = WeightedGraph(V, edges, weights)
     return G
@@ -1276,7 +1282,9 @@ x
         """
         if self.E > 0:
             i, j = self.edges.T
-            sm = coo_matrix((self.weights, (i, j)), shape=(self.V, self.V))
+            # weights of integer type are added / subtracted in floating point
+            sm = coo_matrix((np.asarray(self.weights, dtype=np.float64), (i, j)),
+                            shape=(self.V, self.V))
         else:
             sm = coo_matrix((self.V, self.V))
         return sm
